@@ -80,6 +80,9 @@ func runDispatch(seed int64, p *ProgDef, argv []string) *DispatchObs {
 		}
 		d.HelpText = r.help
 		d.DWriter = buf.String()
+		for _, h := range helpOracle(b.Opt.VerifDumpFinal(), r.help) {
+			obs.Oracle["C18"] = append(obs.Oracle["C18"], h)
+		}
 		d.FnCount = len(b.FnCalls)
 		for _, c := range b.FnCalls {
 			d.FnPaths = append(d.FnPaths, c.Path)
@@ -137,6 +140,8 @@ func cmdDispatch(args []string) {
 	coqOut := fs.String("coq", "", "Coq output (vm_compute route)")
 	coqN := fs.Int("coqn", 10, "number of cases in the Coq output")
 	obsOut := fs.String("obs", "obs.jsonl", "observation output")
+	maskT := fs.String("mask", "mask_all", "comparison mask of the vm_compute sample (Coq term)")
+	dmaskT := fs.String("dmask", "dmask_all", "dispatch comparison mask of the vm_compute sample (Coq term)")
 	fs.Parse(args)
 
 	g := NewGen(*seed)
@@ -196,7 +201,7 @@ func cmdDispatch(args []string) {
 			}
 			names += fmt.Sprintf("c_%d", i)
 		}
-		fmt.Fprintf(w, "Definition M := Eval vm_compute in dmismatches mask_all dmask_all [%s].\nPrint M.\n", names)
+		fmt.Fprintf(w, "Definition M := Eval vm_compute in dmismatches %s %s [%s].\nPrint M.\n", *maskT, *dmaskT, names)
 		w.Flush()
 		f.Close()
 	}
